@@ -28,7 +28,7 @@ import (
 	"github.com/nyaruka/goflow/test"
 )
 
-const gocvC02bAssets = `{"flows": [{"uuid": "1b462ce8-983a-4393-b133-e15a0efdb70c", "name": "Restart", "spec_version": "13.0", "language": "eng", "type": "messaging", "nodes": [{"uuid": "46d51f50-58de-49da-8d13-dadbf322685d", "router": {"type": "switch", "wait": {"type": "msg"}, "operand": "@input.text", "result_name": "Answer", "default_category_uuid": "8720f157-ca1c-432f-9c0b-2014ddc77094", "categories": [{"uuid": "8720f157-ca1c-432f-9c0b-2014ddc77094", "name": "All", "exit_uuid": "37d8813f-1402-4ad2-9cc2-e9054a96525b"}], "cases": []}, "exits": [{"uuid": "37d8813f-1402-4ad2-9cc2-e9054a96525b", "destination_uuid": "a6666666-6666-4666-8666-666666666666"}]}, {"uuid": "a6666666-6666-4666-8666-666666666666", "actions": [{"type": "open_ticket", "uuid": "ad154980-7bf7-4ab8-8728-545fd6378912", "topic": {"uuid": "472a7a73-96cb-4736-b567-056d987cc5b4", "name": "General"}, "body": "help", "result_name": "Ticket"}, {"type": "send_msg", "uuid": "5ad99f45-3a05-4be7-8d6a-0e0c9d2b1e3f", "text": "Thanks @results.answer.value, last seen @contact.last_seen_on"}], "router": {"type": "switch", "wait": {"type": "msg"}, "operand": "@input.text", "default_category_uuid": "d6666666-6666-4666-8666-666666666666", "categories": [{"uuid": "d6666666-6666-4666-8666-666666666666", "name": "All", "exit_uuid": "c6666666-6666-4666-8666-666666666666"}], "cases": []}, "exits": [{"uuid": "c6666666-6666-4666-8666-666666666666"}]}], "localization": {"spa": {"8720f157-ca1c-432f-9c0b-2014ddc77094": {"name": ["Todas las respuestas posibles recibidas hoy mismo"]}, "d6666666-6666-4666-8666-666666666666": {"name": ["Todas"]}}}}], "topics": [{"uuid": "472a7a73-96cb-4736-b567-056d987cc5b4", "name": "General"}]}`
+const gocvC02bAssets = `{"flows": [{"uuid": "1b462ce8-983a-4393-b133-e15a0efdb70c", "name": "Restart", "spec_version": "13.0", "language": "eng", "type": "messaging", "nodes": [{"uuid": "b0000000-0000-4000-8000-000000000001", "actions": [{"type": "enter_flow", "uuid": "b0000000-0000-4000-8000-000000000002", "flow": {"uuid": "e0000000-0000-4000-8000-000000000001", "name": "Empty"}}], "router": {"type": "switch", "operand": "@child.status", "default_category_uuid": "b0000000-0000-4000-8000-000000000003", "categories": [{"uuid": "b0000000-0000-4000-8000-000000000003", "name": "Any", "exit_uuid": "b0000000-0000-4000-8000-000000000004"}], "cases": []}, "exits": [{"uuid": "b0000000-0000-4000-8000-000000000004", "destination_uuid": "46d51f50-58de-49da-8d13-dadbf322685d"}]}, {"uuid": "46d51f50-58de-49da-8d13-dadbf322685d", "router": {"type": "switch", "wait": {"type": "msg"}, "operand": "@input.text", "result_name": "Answer", "default_category_uuid": "8720f157-ca1c-432f-9c0b-2014ddc77094", "categories": [{"uuid": "8720f157-ca1c-432f-9c0b-2014ddc77094", "name": "All", "exit_uuid": "37d8813f-1402-4ad2-9cc2-e9054a96525b"}], "cases": []}, "exits": [{"uuid": "37d8813f-1402-4ad2-9cc2-e9054a96525b", "destination_uuid": "a6666666-6666-4666-8666-666666666666"}]}, {"uuid": "a6666666-6666-4666-8666-666666666666", "actions": [{"type": "set_contact_field", "uuid": "f0000000-0000-4000-8000-000000000002", "field": {"key": "dob", "name": "DOB"}, "value": "01-02-2020 10:30"}, {"type": "open_ticket", "uuid": "ad154980-7bf7-4ab8-8728-545fd6378912", "topic": {"uuid": "472a7a73-96cb-4736-b567-056d987cc5b4", "name": "General"}, "body": "help", "result_name": "Ticket"}, {"type": "send_msg", "uuid": "5ad99f45-3a05-4be7-8d6a-0e0c9d2b1e3f", "text": "Thanks @results.answer.value, last seen @contact.last_seen_on"}], "router": {"type": "switch", "wait": {"type": "msg"}, "operand": "@input.text", "default_category_uuid": "d6666666-6666-4666-8666-666666666666", "categories": [{"uuid": "d6666666-6666-4666-8666-666666666666", "name": "All", "exit_uuid": "c6666666-6666-4666-8666-666666666666"}], "cases": []}, "exits": [{"uuid": "c6666666-6666-4666-8666-666666666666", "destination_uuid": "f0000000-0000-4000-8000-000000000003"}]}, {"uuid": "f0000000-0000-4000-8000-000000000003", "actions": [{"type": "send_msg", "uuid": "f0000000-0000-4000-8000-000000000004", "text": "born @fields.dob in zone @(tz(fields.dob))"}], "exits": [{"uuid": "f0000000-0000-4000-8000-000000000005"}]}], "localization": {"spa": {"8720f157-ca1c-432f-9c0b-2014ddc77094": {"name": ["Todas las respuestas posibles recibidas hoy mismo"]}, "d6666666-6666-4666-8666-666666666666": {"name": ["Todas"]}}}}, {"uuid": "e0000000-0000-4000-8000-000000000001", "name": "Empty", "spec_version": "13.0", "language": "eng", "type": "messaging", "nodes": []}], "topics": [{"uuid": "472a7a73-96cb-4736-b567-056d987cc5b4", "name": "General"}], "fields": [{"uuid": "f0000000-0000-4000-8000-000000000001", "key": "dob", "name": "DOB", "type": "datetime"}]}`
 
 type gocvC02Scenario struct {
 	batch   bool
@@ -36,10 +36,11 @@ type gocvC02Scenario struct {
 	seen    bool
 	lang    i18n.Language
 	msgTrig bool
+	zone    *time.Location
 }
 
 func (sc gocvC02Scenario) String() string {
-	return fmt.Sprintf("batch=%v replies-from=%s seen-before=%v contact-language=%q msg-trigger=%v", sc.batch, sc.urn, sc.seen, sc.lang, sc.msgTrig)
+	return fmt.Sprintf("batch=%v replies-from=%s seen-before=%v contact-language=%q msg-trigger=%v environment-timezone=%s", sc.batch, sc.urn, sc.seen, sc.lang, sc.msgTrig, sc.zone)
 }
 
 func gocvC02bRun(sc gocvC02Scenario, restart bool) (out []string, class string) {
@@ -51,7 +52,7 @@ func gocvC02bRun(sc gocvC02Scenario, restart bool) (out []string, class string) 
 	if err != nil {
 		return nil, "scenario"
 	}
-	env := envs.NewBuilder().WithAllowedLanguages("eng", "spa").Build()
+	env := envs.NewBuilder().WithAllowedLanguages("eng", "spa").WithTimezone(sc.zone).Build()
 	contact := flows.NewEmptyContact(sa, "Bob", sc.lang, nil)
 	contact.AddURN(urns.URN("tel:+12065551212"), nil)
 	if sc.seen {
@@ -119,40 +120,47 @@ func TestGocvBoundedRestart(t *testing.T) {
 			fmt.Printf("BOUNDED-FAIL class=%s input=%s detail=%s\n", class, strconv.Quote(sc.String()), detail)
 		}
 	}
+	kigali, err := time.LoadLocation("Africa/Kigali")
+	if err != nil {
+		t.Fatal(err)
+	}
+	zones := []*time.Location{time.UTC, kigali}
 	for _, batch := range []bool{false, true} {
 		for _, urn := range []string{"tel:+12065551212", "mailto:Ben.Haggerty@Example.com", "tel:+12065551212?channel=57f1078f-88aa-46f4-a59a-948a5739c03d"} {
 			for _, seen := range []bool{false, true} {
 				for _, lang := range []i18n.Language{"eng", "spa", ""} {
 					for _, msgTrig := range []bool{false, true} {
-						sc := gocvC02Scenario{batch, urn, seen, lang, msgTrig}
-						cases++
-						live, c1 := gocvC02bRun(sc, false)
-						restored, c2 := gocvC02bRun(sc, true)
-						if c1 == "scenario" || c2 == "scenario" {
-							fail("scenario_does_not_run", sc, "the driver's scenario no longer starts")
-							continue
-						}
-						if c2 != "" {
-							fail(c2, sc, restored[len(restored)-1])
-							continue
-						}
-						for i := range live {
-							if i >= len(restored) || live[i] != restored[i] {
-								a, b := live[i], ""
-								if i < len(restored) {
-									b = restored[i]
+						for _, zone := range zones {
+							sc := gocvC02Scenario{batch, urn, seen, lang, msgTrig, zone}
+							cases++
+							live, c1 := gocvC02bRun(sc, false)
+							restored, c2 := gocvC02bRun(sc, true)
+							if c1 == "scenario" || c2 == "scenario" {
+								fail("scenario_does_not_run", sc, "the driver's scenario no longer starts")
+								continue
+							}
+							if c2 != "" {
+								fail(c2, sc, restored[len(restored)-1])
+								continue
+							}
+							for i := range live {
+								if i >= len(restored) || live[i] != restored[i] {
+									a, b := live[i], ""
+									if i < len(restored) {
+										b = restored[i]
+									}
+									k := 0
+									for k < len(a) && k < len(b) && a[k] == b[k] {
+										k++
+									}
+									lo := max(0, k-60)
+									class := "events_or_segments_differ"
+									if i == len(live)-1 {
+										class = "final_session_json_differs"
+									}
+									fail(class, sc, fmt.Sprintf("output %d differs: live ...%s... restored ...%s...", i, strconv.Quote(a[lo:min(len(a), k+80)]), strconv.Quote(b[lo:min(len(b), k+80)])))
+									break
 								}
-								k := 0
-								for k < len(a) && k < len(b) && a[k] == b[k] {
-									k++
-								}
-								lo := max(0, k-60)
-								class := "events_or_segments_differ"
-								if i == len(live)-1 {
-									class = "final_session_json_differs"
-								}
-								fail(class, sc, fmt.Sprintf("output %d differs: live ...%s... restored ...%s...", i, strconv.Quote(a[lo:min(len(a), k+80)]), strconv.Quote(b[lo:min(len(b), k+80)])))
-								break
 							}
 						}
 					}
@@ -163,5 +171,5 @@ func TestGocvBoundedRestart(t *testing.T) {
 	for class, n := range counts {
 		fmt.Printf("BOUNDED-COUNT class=%s n=%d\n", class, n)
 	}
-	fmt.Printf("BOUNDED: cases=%d bound=two-wait flow, 2 batch x 3 reply URN forms x 2 seen-before x 3 contact languages x 2 trigger kinds, restart before every resume\n", cases)
+	fmt.Printf("BOUNDED: cases=%d bound=two-wait flow, 2 batch x 3 reply URN forms x 2 seen-before x 3 contact languages x 2 trigger kinds x 2 environment timezones, restart before every resume\n", cases)
 }
